@@ -181,3 +181,38 @@ def run_native(binary, entry, assignment, params, timeout=10):
     if status == "ok" and rc not in (0, 3) and res["status"] == "ok":
         res["status"] = "crash rc=%s" % rc
     return res
+
+
+def build_tsan(main_cpp, repo_srcs):
+    """clang++ -fsanitize=thread build of a standalone stress program (C19 replays)"""
+    srcs = [os.path.join(HARNESS, main_cpp)] + [os.path.join(REPO, s) for s in repo_srcs]
+    h = hashlib.sha1()
+    h.update(tree_hash().encode())
+    for s in srcs:
+        with open(s, "rb") as f:
+            h.update(f.read())
+    out = os.path.join(BUILD, "bin", "tsan-" + h.hexdigest()[:20])
+    if not os.path.exists(out):
+        os.makedirs(os.path.dirname(out), exist_ok=True)
+        _run(["clang++-14", "-std=c++17", "-O1", "-g", "-fsanitize=thread", "-I" + os.path.join(REPO, "include"),
+              "-I/usr/include/eigen3", "-w"] + srcs + ["-o", out + ".tmp", "-lpthread"])
+        os.replace(out + ".tmp", out)
+    return out
+
+
+def run_tsan(binary, scenario, timeout=180):
+    env = dict(os.environ, TSAN_OPTIONS="exitcode=66 halt_on_error=0")
+    try:
+        p = subprocess.run([binary, scenario], capture_output=True, text=True, timeout=timeout, env=env)
+    except subprocess.TimeoutExpired:
+        return dict(races=0, status="timeout", functions=[])
+    txt = p.stderr + p.stdout
+    races = txt.count("WARNING: ThreadSanitizer: data race")
+    fns = []
+    for line in txt.split("\n"):
+        line = line.strip()
+        if line.startswith("#") and " in " in line:
+            f = line.split(" in ", 1)[1].split(" /")[0].split(" (")[0]
+            if "romea" in f and f not in fns:
+                fns.append(f[:120])
+    return dict(races=races, status="rc=%s" % p.returncode, functions=fns[:12], raw=txt[:3000])
